@@ -2,6 +2,7 @@ package goja
 
 import (
 	"fmt"
+	"hash/maphash"
 	"reflect"
 	"strconv"
 
@@ -521,6 +522,13 @@ func (o *dynamicObject) equal(impl objectImpl) bool {
 		return o.d == other.d
 	}
 	return false
+}
+
+func (o *dynamicObject) hashIdentity(hasher *maphash.Hash) (uint64, bool) {
+	if reflect.ValueOf(o.d).Comparable() {
+		return maphash.Comparable(hasher.Seed(), o.d), true
+	}
+	return 0, false
 }
 
 func (o *dynamicObject) stringKeys(all bool, accum []Value) []Value {
